@@ -4,6 +4,10 @@ import json, os, subprocess
 ROOT = os.path.dirname(os.path.dirname(os.path.abspath(__file__)))
 
 CHECKS = {
+    "C14": dict(level="model_checking", design="DESIGN.md section 5 C14",
+                technique="TLA+ reference semantics (Core.tla CONST evaluated by the same Values operators as run-time expressions); TLC validates CONST / run-time / inlined programs",
+                text="Every constant expression of the bounded family is run three ways on the real code - CONST c = e : PRINT c (and c + c), PRINT (e), and programs where each use of a constant is replaced by its defining expression - at module and subprogram level; TLC validates each run against Core.tla, so the CONST value, its type (through overflow behaviour and the suffix acceptance probe) and static rejection (which must coincide with the run-time error 6/11) are all decided by the spec.",
+                note="Trusted: renderer, TLC. Inexact divisions and out-of-INTEGER operands of MOD/AND/OR are skipped."),
     "C06": dict(level="model_checking", design="DESIGN.md section 5 C06",
                 technique="TLC model checking of Values.tla over the boundary set + TLC validation of boundary-route programs against Core.tla + TLA+ monitor TypeMon over typed variable dumps",
                 text="D: TLC checks on every (source type, target type, boundary value) and every (operator, types, boundary pair) that Cast/Arith are total and yield a value in the range of the result type or Overflow. R/V: each boundary value is driven through every storing route (assignment, by-value parameter, FOR start/limit/increment, READ, array element, record field, FUNCTION result, by-reference copy-out, STATIC local) from literals, typed variables and sums; expectation (stored value or error 6 at that statement) from Core.tla. M: the hook dumps every variable at statement boundaries; TypeMon.tla checks each dumped value is a value of its variable's type.",
